@@ -19,7 +19,7 @@ import (
 
 func init() {
 	props["C10"] = c10
-	programSets["C10"] = func(t bool) []diffrun.Program { return append(initx.Programs(t), initx.LinknameProgram(), initx.SuspendingInitProgram()) }
+	programSets["C10"] = func(t bool) []diffrun.Program { return append(initx.Programs(t), initx.LinknameProgram(), initx.PureChainProgram(), initx.SuspendingInitProgram()) }
 }
 
 func c10(tier string) int {
@@ -29,7 +29,7 @@ func c10(tier string) int {
 		panic(err)
 	}
 	defer env.Close()
-	progs := append(initx.Programs(tier == "thorough"), initx.LinknameProgram())
+	progs := append(initx.Programs(tier == "thorough"), initx.LinknameProgram(), initx.PureChainProgram())
 	env.CheckAll(progs, []diffrun.Variant{diffrun.Plain, diffrun.Minified})
 	// rejection table: documented unsupported uses of go:linkname must fail the build with an ordinary error
 	rejected := 0
